@@ -57,6 +57,17 @@ Theorem C09_tx_canonical : forall bs t,
   bytes_ok bs = true -> decode_tx bs = Ok t -> Nlen bs = size_tx t -> encode_tx t = bs.
 Proof. exact tx_canonical. Qed.
 
+(* a transaction that was decoded from the wire is well formed, so forwarding it
+   (re-encoding) and decoding again yields the same transaction: same signed
+   bytes, hence same hash and signature verdict *)
+Theorem C09_tx_decoded_wf : forall bs t,
+  bytes_ok bs = true -> decode_tx bs = Ok t -> wf_tx t = true.
+Proof. exact tx_decoded_wf. Qed.
+
+Theorem C09_tx_wire_stable : forall bs t,
+  bytes_ok bs = true -> decode_tx bs = Ok t -> decode_tx (encode_tx t) = Ok t.
+Proof. exact tx_wire_stable. Qed.
+
 (* ---------------- Block (all BlockType arguments of serialize_for_net) ---------------- *)
 (* block_after_wire bt b: header-only serialisation drops the transactions; the
    decoder sets block_type to Header when there are none (unless id = 1 with a
